@@ -21,6 +21,13 @@ def inner_adt(f):
                     names["waker"] = x["name"]
                 elif "Atomic" in x["ty"]:
                     names["counter"] = x["name"]
+                else:
+                    # a private newtype around the atomic (`TicketCounter(AtomicUsize)`)
+                    for p2, a2 in f.adts.items():
+                        if a2["kind"] == "Struct" and p2.split("::")[-1] == x["ty"].split("<")[0].split("::")[-1] and \
+                                any("Atomic" in y["ty"] for y in a2["variants"][0]["fields"]):
+                            names["counter"] = x["name"]
+                            names["counter_newtype"] = p2.split("::")[-1]
             return p, a, names
     return None, None, None
 
